@@ -343,8 +343,19 @@ def unbound_kind(spec, name, context=""):
     m = spec.get("mapping") or {}
     lo = sum((m.get("loop-order") or {}).values(), [])
     part = m.get("partitioning") or {}
-    if name in lo and name[-1:].isdigit() and "iterRangeShapeRef(" in context:
+    levels = set(lo)
+    for ranks in part.values():
+        for key, dirs in (ranks or {}).items():
+            if not key.strip().startswith("("):
+                levels.update("%s%d" % (key.strip(), i) for i in range(len(dirs or []) + 1))
+    if name in levels and name[-1:].isdigit() and "iterRangeShapeRef(" in context:
         return "level-name-as-size"
+    if name.islower() and name.upper() in lo and name[-1:].isdigit() and "iterRangeShapeRef(" in context:
+        # the coordinate of an upper level of an output-only rank, read by the range of a lower level that the
+        # loop order places outside it
+        root, k, at = name[:-1].upper(), int(name[-1]), lo.index(name.upper())
+        if any(root + str(j) in lo and lo.index(root + str(j)) < at for j in range(k)):
+            return "upper-level-coord-before-its-loop"
     if name.upper() in lo and name.islower():
         for ranks in part.values():
             for key in (ranks or {}):
